@@ -3,12 +3,122 @@ package rules
 import (
 	"fmt"
 	"go/token"
-	"strings"
+	"go/types"
 
 	"gmcheck/core"
 
 	"golang.org/x/tools/go/ssa"
 )
+
+// bitStorageLayout finds the roles of BitStorage's fields by what the exported
+// API does with them, not by their names: the packed longs (the []uint64
+// field), the element count (what Len() returns), the value mask (the field
+// that is given (1<<bits)-1 somewhere in the package).
+type bsLayout struct {
+	data, length, mask string
+	why                string
+}
+
+func (c *Ctx) bitStorageLayout() bsLayout {
+	var l bsLayout
+	pk := c.P.Pkg("level")
+	if pk == nil {
+		return bsLayout{why: "package level not found"}
+	}
+	tn, _ := pk.Types.Scope().Lookup("BitStorage").(*types.TypeName)
+	if tn == nil {
+		return bsLayout{why: "type level.BitStorage not found"}
+	}
+	st, _ := tn.Type().Underlying().(*types.Struct)
+	if st == nil {
+		return bsLayout{why: "level.BitStorage is not a struct"}
+	}
+	for i := 0; i < st.NumFields(); i++ {
+		f := st.Field(i)
+		if sl, ok := f.Type().Underlying().(*types.Slice); ok {
+			if b, ok := sl.Elem().Underlying().(*types.Basic); ok && b.Kind() == types.Uint64 {
+				if l.data != "" {
+					return bsLayout{why: "two []uint64 fields: the packed data is ambiguous"}
+				}
+				l.data = f.Name()
+			}
+		}
+	}
+	if ln := c.Fn("level.(*BitStorage).Len"); ln != nil {
+		for _, b := range ln.Blocks {
+			for _, in := range b.Instrs {
+				if r, ok := in.(*ssa.Return); ok && len(r.Results) == 1 {
+					if p := rootFieldOfAddr(loadAddr(r.Results[0]), ln.Params[0]); p != "" {
+						l.length = p
+					}
+				}
+			}
+		}
+	}
+	isStruct := func(t types.Type) bool {
+		n, ok := types.Unalias(deref(t)).(*types.Named)
+		return ok && n.Obj() == tn
+	}
+	for _, fn := range c.Funcs() {
+		if !inPkgs(fn, "level") {
+			continue
+		}
+		for _, b := range fn.Blocks {
+			for _, in := range b.Instrs {
+				s, ok := in.(*ssa.Store)
+				if !ok {
+					continue
+				}
+				fa, ok := s.Addr.(*ssa.FieldAddr)
+				if !ok || !isStruct(fa.X.Type()) {
+					continue
+				}
+				// (1 << x) - 1
+				sub, ok := stripConv(s.Val).(*ssa.BinOp)
+				if !ok || sub.Op != token.SUB {
+					continue
+				}
+				if k, ok := constIntVal(sub.Y); !ok || k != 1 {
+					continue
+				}
+				if shl, ok := stripConv(sub.X).(*ssa.BinOp); ok && shl.Op == token.SHL {
+					if k, ok := constIntVal(shl.X); ok && k == 1 {
+						l.mask = st.Field(fa.Field).Name()
+					}
+				}
+			}
+		}
+	}
+	switch {
+	case l.data == "":
+		l.why = "no []uint64 field in level.BitStorage"
+	case l.length == "":
+		l.why = "Len() does not return a field of the storage"
+	case l.mask == "":
+		l.why = "no field of the storage is given (1<<bits)-1"
+	}
+	return l
+}
+
+// divisorFields: the receiver fields fn divides by (x / b.f, x % b.f).
+func divisorFields(fn *ssa.Function) []string {
+	var out []string
+	if len(fn.Params) == 0 {
+		return nil
+	}
+	for _, b := range fn.Blocks {
+		for _, in := range b.Instrs {
+			bo, ok := in.(*ssa.BinOp)
+			if !ok || (bo.Op != token.QUO && bo.Op != token.REM) {
+				continue
+			}
+			if p := rootFieldOfAddr(loadAddr(stripConv(bo.Y)), fn.Params[0]); p != "" {
+				out = append(out, p)
+			}
+		}
+	}
+	return out
+}
 
 // BitStorageGuards: C11 - at every access of the packed data in Get/Set/Swap
 // the index parameter is proven in [0, length-1] and (for writes) the value in
@@ -16,6 +126,11 @@ import (
 func (c *Ctx) BitStorageGuards() []core.Ob {
 	var obs []core.Ob
 	t := c.TLG()
+	lay := c.bitStorageLayout()
+	if lay.why != "" {
+		return []core.Ob{{Rule: "R-GUARD", Key: "BitStorage:layout", Status: core.Violated, Armed: true,
+			Want: "the roles of BitStorage's fields (packed longs, element count, value mask) are recognisable from the exported API", Got: lay.why}}
+	}
 	for _, m := range []string{"Get", "Set", "Swap"} {
 		fn := c.Fn("level.(*BitStorage)." + m)
 		if fn == nil {
@@ -34,11 +149,19 @@ func (c *Ctx) BitStorageGuards() []core.Ob {
 		vo := core.Ob{Rule: "R-GUARD", Key: "BitStorage." + m + ":value-in-range", Pos: c.P.Pos(fn.Pos()), Func: core.FnName(fn), Armed: true, Status: core.OK,
 			Want: "at every store into the packed longs the value parameter is proven to satisfy 0 <= v <= mask"}
 		zo := core.Ob{Rule: "R-GUARD", Key: "BitStorage." + m + ":zero-width-short-circuit", Pos: c.P.Pos(fn.Pos()), Func: core.FnName(fn), Armed: true, Status: core.OK,
-			Want: "with 0 bits per value (valuesPerLong == 0) the method returns before any index arithmetic (calcIndex divides by valuesPerLong)"}
+			Want: "with 0 bits per value the method returns before any index arithmetic: every division by a field of the storage (values per long) happens with that field proven non-zero"}
+		nDiv := 0
+		checkNZ := func(field string, pos token.Pos, locAV func(string) (AV, bool), what string) {
+			nDiv++
+			av, ok := locAV("p:" + recv.Name() + "." + field)
+			if !ok || !av.nonZero() {
+				zo.Status, zo.Got, zo.Pos = core.Violated, what+" is reachable with the divisor field "+field+" possibly 0 (division by zero)", c.P.Pos(pos)
+			}
+		}
 		t.Probe(fn, func(in ssa.Instruction, eval func(ssa.Value) AV, locAV func(string) (AV, bool)) {
 			switch x := in.(type) {
 			case *ssa.IndexAddr:
-				if rootFieldOfAddr(x.X, recv) != "data" {
+				if rootFieldOfAddr(x.X, recv) != lay.data {
 					return
 				}
 				nAcc++
@@ -46,7 +169,7 @@ func (c *Ctx) BitStorageGuards() []core.Ob {
 				ok := nonNeg(av.all())
 				bounded := false
 				for _, u := range av.UB {
-					if u.Kind == 'v' && u.Key == "p:"+recv.Name()+".length" && u.K <= -1 {
+					if u.Kind == 'v' && u.Key == "p:"+recv.Name()+"."+lay.length && u.K <= -1 {
 						bounded = true
 					}
 				}
@@ -55,7 +178,7 @@ func (c *Ctx) BitStorageGuards() []core.Ob {
 				}
 			case *ssa.Store:
 				ia, isIA := x.Addr.(*ssa.IndexAddr)
-				if !isIA || rootFieldOfAddr(ia.X, recv) != "data" || valParam == nil {
+				if !isIA || rootFieldOfAddr(ia.X, recv) != lay.data || valParam == nil {
 					return
 				}
 				nStore++
@@ -63,29 +186,40 @@ func (c *Ctx) BitStorageGuards() []core.Ob {
 				ok := nonNeg(av.all())
 				bounded := false
 				for _, u := range av.UB {
-					if u.Kind == 'v' && u.Key == "p:"+recv.Name()+".mask" && u.K <= 0 {
+					if u.Kind == 'v' && u.Key == "p:"+recv.Name()+"."+lay.mask && u.K <= 0 {
 						bounded = true
 					}
 				}
 				if !ok || !bounded {
 					vo.Status, vo.Got, vo.Pos = core.Violated, "at the store, v is only known to be "+av.String(), c.P.Pos(x.Pos())
 				}
-			case *ssa.Call:
-				if strings.HasSuffix(calleeName(x.Common()), "level.(BitStorage).calcIndex") {
-					av, ok := locAV("p:" + recv.Name() + ".valuesPerLong")
-					if !ok || !av.nonZero() {
-						zo.Status, zo.Got, zo.Pos = core.Violated, "calcIndex is reachable with valuesPerLong possibly 0 (division by zero)", c.P.Pos(x.Pos())
+			case *ssa.BinOp:
+				if x.Op == token.QUO || x.Op == token.REM {
+					if f := rootFieldOfAddr(loadAddr(stripConv(x.Y)), recv); f != "" {
+						checkNZ(f, x.Pos(), locAV, "a division")
 					}
+				}
+			case *ssa.Call:
+				// a helper of the package that divides by a field of the same storage
+				sc := x.Common().StaticCallee()
+				if sc == nil || !inPkgs(sc, "level") || len(x.Common().Args) == 0 || x.Common().Args[0] != ssa.Value(recv) {
+					return
+				}
+				for _, f := range divisorFields(core.Origin(sc)) {
+					checkNZ(f, x.Pos(), locAV, "the call of "+sc.Name()+" (which divides by it)")
 				}
 			}
 		})
 		if nAcc == 0 {
-			io.Status, io.Got = core.Violated, "no access of the data field found"
+			io.Status, io.Got = core.Violated, "no access of the packed longs found"
+		}
+		if nDiv == 0 {
+			zo.Status, zo.Got = core.Violated, "no division by a field of the storage found in the method or its helpers: the index arithmetic is not recognised"
 		}
 		obs = append(obs, io, zo)
 		if valParam != nil {
 			if nStore == 0 {
-				vo.Status, vo.Got = core.Violated, "no store into the data field found"
+				vo.Status, vo.Got = core.Violated, "no store into the packed longs found"
 			}
 			obs = append(obs, vo)
 		}
@@ -99,6 +233,7 @@ func (c *Ctx) BitStorageGuards() []core.Ob {
 // is not calcBitStorageSize(bits, length).
 func (c *Ctx) bitStorageLengthChecks() []core.Ob {
 	var obs []core.Ob
+	lay := c.bitStorageLayout()
 	// Fix: every nil return is either on the bits==0 edge or after the length comparison succeeded
 	fx := c.Fn("level.(*BitStorage).Fix")
 	o := core.Ob{Rule: "R-ORDER", Key: "BitStorage.Fix:length-checked", Armed: true, Status: core.OK,
@@ -128,11 +263,18 @@ func (c *Ctx) bitStorageLengthChecks() []core.Ob {
 				return false
 			}
 			bi, ok := cl.Common().Value.(*ssa.Builtin)
-			return ok && bi.Name() == "len" && rootFieldOfAddr(loadAddr(cl.Common().Args[0]), fx.Params[0]) == "data"
+			return ok && bi.Name() == "len" && rootFieldOfAddr(loadAddr(cl.Common().Args[0]), fx.Params[0]) == lay.data
 		}
+		// the required size: computed (a call of a function of the package, or arithmetic), not a constant
 		isSize := func(v ssa.Value) bool {
-			cl, ok := stripConv(v).(*ssa.Call)
-			return ok && strings.HasSuffix(calleeName(cl.Common()), "level.calcBitStorageSize")
+			switch x := stripConv(v).(type) {
+			case *ssa.Call:
+				sc := x.Common().StaticCallee()
+				return sc != nil && inPkgs(sc, "level")
+			case *ssa.BinOp:
+				return true
+			}
+			return false
 		}
 		if (isLen(cmp.X) && isSize(cmp.Y)) || (isLen(cmp.Y) && isSize(cmp.X)) {
 			eq := b.Succs[0]
